@@ -74,6 +74,18 @@ class C13(StoreProp):
         kinds += 1 if any(n.get('leak') for n in d1.get('nodes', [])) else 0
         if kinds >= 3:
             bump(c, 'c13.rich_roundtrips')
+        # the dictionaries may agree and still both be wrong about a time: the instants of the clock-time conditions, through their public
+        # `name` (which formats the threshold on a 24-hour clock, independently of the AM/PM text the dictionary stores), must survive
+        def time_names(w):
+            return [c_.condition.name for _, c_ in w.controls() if type(c_.condition).__name__ == 'TimeOfDayCondition']
+        try:
+            tn1, tn2 = time_names(wn), time_names(wn2)
+            if tn1 != tn2:
+                k_ = next((i_ for i_, (a_, b_) in enumerate(zip(tn1, tn2)) if a_ != b_), min(len(tn1), len(tn2)))
+                viol.append(V('c13.time_condition_changed', 'name', '%s restart: time condition %d is %r before and %r after' %
+                              (op['how'], k_, tn1[k_] if k_ < len(tn1) else None, tn2[k_] if k_ < len(tn2) else None)))
+        except Exception as e:  # noqa
+            viol.append(V('c13.time_condition_changed', 'raises:' + type(e).__name__, repr(e)))
         diff = first_diff(d1, d2)
         if diff:
             where = diff.split(':')[0]
